@@ -102,6 +102,53 @@ def run_sessions(run, idx):
         run.nt_sessions += 1
 
 
+def builtin_session(run, idx):
+    """One stdin session driven through the `history` BUILTIN (positions as the user types them): unique commands, `history -d N` with
+    positive and negative offsets after earlier deletions, `history -c` followed by new commands, ended by `history -w`; the written
+    file must equal the one bash writes for the same session."""
+    rng = run.rng("bs%d" % idx)
+    lines = []
+    count = 0
+    for k in range(rng.randint(6, 16)):
+        r = rng.random()
+        if r < 0.55 or count < 2:
+            lines.append("echo b%dk%d >/dev/null" % (idx, k))
+        elif r < 0.85:
+            # the `history -d` line itself is entry count+1 when it runs
+            off = rng.choice([rng.randint(1, count), rng.randint(1, count), -rng.randint(1, count), 1, count])
+            lines.append("history -d %d" % off)
+            count -= 1
+        elif r < 0.93:
+            lines.append("history -c")
+            count = -1
+        else:
+            lines.append("history -d %d" % (count + 5))       # out of range: an error, nothing removed
+        count += 1
+    lines.append("history -w out.f")
+    script = "\n".join(lines) + "\n"
+    outs = {}
+    for sh in ("brush", "bash"):
+        d = core.new_scratch("hb")
+        r = core.run_shell(sh, script, d, mode="stdin", env_extra={"HISTFILE": os.path.join(d, "hf")}, shell_opts=["-o", "history"], timeout=20)
+        if sh == "brush" and core.crash_kind(r):
+            run.violation("C20|builtin-session-crash|" + core.crash_kind(r), {"kind": "builtin-session", "script": script, "stderr": core.txt(r.err[-500:])})
+        try:
+            with open(os.path.join(d, "out.f")) as f:
+                outs[sh] = f.read().split("\n")
+        except OSError:
+            outs[sh] = None
+        core.rmtree(d)
+    run.evaluations += 1
+    if outs["bash"] is None:
+        run.count("bash_wrote_no_file")
+        return
+    if outs["brush"] != outs["bash"]:
+        run.violation("C20|builtin-session|file after history -d / -c differs from bash", {"kind": "builtin-session", "script": script, "brush_file": outs["brush"], "bash_file": outs["bash"]})
+    else:
+        run.nt_sessions += 1
+        run.count("builtin_sessions_agreeing")
+
+
 def run(run):
     quick = run.tier == "quick"
     scale = getattr(run, "scale", 1.0)
@@ -113,7 +160,8 @@ def run(run):
                 "toggle timestamps - (11^1+...+11^%d sequences minus the region of open finding C20-F1, exhaustive) and random "
                 "sequences of length 6-12, each replayed through the real history API and compared after every step with an "
                 "executable model of file + session plus file invariants (exactly once, recording order, timestamp attached); "
-                "plus multi-session `brush -o history` runs on stdin with `history -a`. non-trivial = sequences in which a save "
+                "plus multi-session `brush -o history` runs on stdin with `history -a`, and single sessions driven through the `history` builtin "
+                "(`history -d N` with positive / negative offsets after earlier deletions, `history -c`, `history -w`) whose written file must equal bash's. non-trivial = sequences in which a save "
                 "wrote data and a later reload/save observed it (counted in the harness)" % (maxlen, maxlen))
     run.assumptions = ["single-line commands; `#`-leading commands are recorded but excluded from the exactly-once claim as the statement says",
                        "timestamp values are normalised (their attachment, not their value, is compared)"]
@@ -136,6 +184,9 @@ def run(run):
     absorb(run, res, "random")
     n = int((60 if quick else 1500) * scale)
     core.pmap(lambda i: run_sessions(run, i), range(n))
+    nb = int((60 if quick else 1500) * scale)
+    core.pmap(lambda i: builtin_session(run, i), range(nb))
+    run.count("builtin_sessions", nb)
     run.count("process_sessions", n)
     run.count("process_sessions_nontrivial", run.nt_sessions)
     run.nontrivial = set(range(run.nt + run.nt_sessions))
